@@ -41,11 +41,11 @@ Definition cst_binop (o : binop) (a b : cst) : res :=
   | Ror => (* (x >> n | x << (size - n)) on constants *)
       let a0 := with_sf a false in
       let lo := mk (value a0 / 2 ^ Z.min (cv b) n) n in
-      let k := mk (n - value b) n in     (* x.size - n : int - cst -> cst.__rsub__ *)
+      let k := mk (n mod 2 ^ csz b - value b) (csz b) in     (* x.size - n : int - cst -> cst(x.size, n.size) - n *)
       let hi := if n <=? cv k then mk 0 n else mk (value a0 * 2 ^ cv k) n in
       ROk (mk (Z.lor (cv lo) (cv hi)) n)
   | Rol =>
-      let k := mk (n - value b) n in
+      let k := mk (n mod 2 ^ csz b - value b) (csz b) in
       let hi := if n <=? cv b then mk 0 n else mk (value a * 2 ^ cv b) n in
       let lo := mk (value (with_sf a false) / 2 ^ Z.min (cv k) n) n in
       ROk (mk (Z.lor (cv hi) (cv lo)) n)
